@@ -121,6 +121,27 @@ def required (cls : String) : List (Nat × String) :=
 
 def isSingle (card : String) : Bool := card == "1" || card == "1C"
 
+/-- the ends on which an instance of `cls` may have at most one partner: (rel, partner) with multiplicity 1 / 1C -/
+def singleEnds (cls : String) : List (Nat × String) :=
+  assocs.filterMap fun a =>
+    if a.src.cls == cls && isSingle a.tgt.card then some (a.rel, a.tgt.cls)
+    else if a.tgt.cls == cls && isSingle a.src.card then some (a.rel, a.src.cls)
+    else none
+
+/-- supertype / subtype relationships of the schema: a relationship number that occurs in several ROPs, all
+    `FROM 1C <subtype> TO 1 <supertype>`: (supertype, rel, subtypes) -/
+def supertypes : List (String × Nat × List String) :=
+  let keys := (assocs.filterMap fun a =>
+    if a.src.card == "1C" && a.tgt.card == "1" then some (a.tgt.cls, a.rel) else none).eraseDups
+  keys.filterMap fun k =>
+    let subs := assocs.filterMap fun a =>
+      if a.tgt.cls == k.1 && a.rel == k.2 && a.src.card == "1C" && a.tgt.card == "1" then some a.src.cls else none
+    if subs.length ≥ 2 then some (k.1, k.2, subs) else none
+
+/-- unique identifiers of a class -/
+def identifiers (cls : String) : List (List String) :=
+  indices.filterMap fun i => if i.1 == cls then some i.2.2 else none
+
 def conforms (r : Recipe) : Bool :=
   r.links.all (fun l => !(partnerCards r.cls l).isEmpty) &&
   (required r.cls).all (fun q => r.links.count q == 1) &&
